@@ -45,6 +45,35 @@ void h_sqrt64_bounded(void)
 }
 
 /* gcd: unbounded facts (termination by the loop contract's decreases clause, gcd(a,0)=a, gcd(0,b)=b) */
+/* ghosts of the gcd range units: whether the arguments are not both zero, and their maximum (set by the harness
+   before the call, named by the loop invariant of props/C19.py) */
+unsigned long verif_gcd_nz, verif_gcd_max, verif_gcd_a0z, verif_gcd_b0;
+void h_gcd32_range(void)
+{
+    a_u32 a = nondet_u32(), b = nondet_u32();
+    verif_gcd_nz = (a != 0 || b != 0);
+    verif_gcd_max = a > b ? a : b;
+    verif_gcd_a0z = (a == 0);
+    verif_gcd_b0 = b;
+    a_u32 g = a_u32_gcd(a, b);
+    ASSERT((g == 0) == (a == 0 && b == 0), "gcd is zero only for two zeros");
+    ASSERT(g <= (a > b ? a : b), "gcd does not exceed the larger argument");
+    if (a == 0) { ASSERT(g == b, "gcd(0,b) == b"); }
+    VERIF_CANARY();
+}
+void h_gcd64_range(void)
+{
+    a_u64 a = nondet_u64(), b = nondet_u64();
+    verif_gcd_nz = (a != 0 || b != 0);
+    verif_gcd_max = a > b ? a : b;
+    verif_gcd_a0z = (a == 0);
+    verif_gcd_b0 = b;
+    a_u64 g = a_u64_gcd(a, b);
+    ASSERT((g == 0) == (a == 0 && b == 0), "gcd is zero only for two zeros");
+    ASSERT(g <= (a > b ? a : b), "gcd does not exceed the larger argument");
+    if (a == 0) { ASSERT(g == b, "gcd(0,b) == b"); }
+    VERIF_CANARY();
+}
 void h_gcd32(void)
 {
     a_u32 a = nondet_u32(), b = nondet_u32();
@@ -154,6 +183,20 @@ void h_lcm32_protocol(void)
     a_u32 l = a_u32_lcm(a, b);
     ASSERT(verif_gcd_calls == 1 && verif_gcd_a == a && verif_gcd_b == b, "lcm32: consults the gcd of its two arguments, once");
     if (g == 0) { ASSERT(l == 0, "lcm32: 0 when the gcd is 0"); }
+    VERIF_CANARY();
+}
+
+/* ---- [B] 32-bit lcm where a * b wraps although the lcm is representable: a = A * 2^15, b = B * 2^15, A, B < GCD_BOUND
+        (a * b = A*B*2^30 >= 2^32 from A*B >= 4; lcm = lcm(A,B) * 2^15 < 2^25).  An unbounded statement "l == (a / g) * b" with the gcd
+        replaced by its contract was tried for g = 2^k: two divider/multiplier circuits, no answer in 300 s (32 and 64 bit). ---- */
+void h_lcm32_scaled(void)
+{
+    a_u32 A = nondet_u32(), B = nondet_u32();
+    ASSUME(A < GCD_BOUND && B < GCD_BOUND && A != 0 && B != 0);
+    a_u32 a = A << 15, b = B << 15;
+    a_u32 g = a_u32_gcd(a, b), l = a_u32_lcm(a, b), l2 = a_u32_lcm(b, a);
+    ASSERT(l % a == 0 && l % b == 0, "lcm32 is a common multiple (product above 2^32)");
+    ASSERT((a_u64)l * g == (a_u64)a * b && l2 == l, "lcm32 * gcd32 == a * b as 64-bit numbers (product above 2^32, lcm representable), symmetric");
     VERIF_CANARY();
 }
 
